@@ -30,7 +30,7 @@ func TestEngine(t *testing.T) {
 
 type step struct {
 	Approve   bool   `json:"approve"`
-	Target    string `json:"target"`    // confirm | deny | addgrant-fails | setup-fails | raw-confirm | raw-deny | raw-close | raw-garbage
+	Target    string `json:"target"`     // confirm | deny | addgrant-fails | setup-fails | raw-confirm | raw-deny | raw-close | raw-garbage
 	OtherHost bool   `json:"other_host"` // request names another target than the connected one
 }
 
@@ -55,7 +55,8 @@ func (l *elog) add(e event) {
 	l.mu.Unlock()
 }
 
-var targetBehaviours = []string{"confirm", "deny", "addgrant-fails", "setup-fails", "raw-confirm", "raw-deny", "raw-close", "raw-garbage"}
+var targetBehaviours = []string{"confirm", "deny", "addgrant-fails", "setup-fails", "raw-confirm", "raw-deny", "raw-close", "raw-garbage",
+	"deny-empty-reason", "raw-deny-empty-reason", "setup-fails-once"}
 
 func genC06(r *vh.Runner) {
 	genC06FullStack(r)
@@ -95,6 +96,34 @@ func genC06(r *vh.Runner) {
 			r.NontrivialN(int64(hi - lo))
 		})
 	}
+	// directed histories: a foreign target asked for again after it was
+	// refused, targets that deny without giving a reason, a connection attempt
+	// that fails once
+	var directed [][]step
+	for _, t1 := range base {
+		for _, ap := range []bool{true, false} {
+			directed = append(directed,
+				[]step{{true, "confirm", false}, {ap, t1, true}, {true, "confirm", true}},
+				[]step{{true, "raw-confirm", false}, {ap, t1, true}, {true, "raw-confirm", true}, {true, "confirm", false}},
+				[]step{{true, "confirm", false}, {ap, t1, true}, {ap, t1, true}, {true, "confirm", true}, {true, "confirm", true}})
+		}
+	}
+	for _, ap := range []bool{true, false} {
+		for _, tb := range []string{"deny-empty-reason", "raw-deny-empty-reason", "setup-fails-once"} {
+			directed = append(directed,
+				[]step{{ap, tb, false}},
+				[]step{{ap, tb, false}, {true, "confirm", false}},
+				[]step{{true, "confirm", false}, {ap, tb, false}, {true, "confirm", false}})
+		}
+	}
+	for k, seq := range directed {
+		r.Case(fmt.Sprintf("directed/%d", k), map[string]any{"sequence": seq}, func(c *vh.Case) {
+			for rep := 0; rep < 4 && !c.Violated(); rep++ {
+				c.Bubble(func() { runSequence(r, c, seq, vh.NewRand(r.Seed, "c06-dir", k, rep), false) })
+			}
+			r.Nontrivial(fmt.Sprintf("dir|%d", k))
+		})
+	}
 	r.Case("exhaustive/complete", map[string]any{"sequences": len(seqs), "max_len": maxLen}, func(c *vh.Case) { r.Count("exhaustive_spaces_completed", 1) })
 	nr := r.Pick(300, 1500000)
 	for i := 0; i < nr; i++ {
@@ -103,7 +132,7 @@ func genC06(r *vh.Runner) {
 			n := 1 + rng.Intn(8)
 			var seq []step
 			for k := 0; k < n; k++ {
-				seq = append(seq, step{rng.Chance(0.6), targetBehaviours[rng.Intn(len(targetBehaviours))], rng.Chance(0.15)})
+				seq = append(seq, step{rng.Chance(0.6), targetBehaviours[rng.Intn(len(targetBehaviours))], rng.Chance(0.25)})
 			}
 			c.Bubble(func() { runSequence(r, c, seq, rng, i == 0) })
 			r.Nontrivial(fmt.Sprintf("rand|%d|%v", i, seq))
@@ -171,6 +200,8 @@ func runSequence(r *vh.Runner, c *vh.Case, seq []step, rng *vh.Rand, sample bool
 	getCur := func() int { curMu.Lock(); defer curMu.Unlock(); return cur }
 	var intents []authgrants.Intent
 	var targetConns []net.Conn
+	failedOnce := map[int]bool{}
+	connectedTo := "" // what the successful set-up was asked to connect to
 	approve := func(i authgrants.Intent, cert *certs.Certificate) error {
 		q := getCur()
 		ic := i
@@ -190,6 +221,13 @@ func runSequence(r *vh.Runner, c *vh.Case, seq []step, rng *vh.Rand, sample bool
 			lg.add(event{Kind: "setup.ret", Req: q, Info: "dial failed"})
 			return nil, errors.New("dial failed")
 		}
+		if behaviour == "setup-fails-once" && !failedOnce[q] {
+			// the first attempt for this request fails before the handshake
+			// reaches the certificate; any further attempt would get through
+			failedOnce[q] = true
+			lg.add(event{Kind: "setup.ret", Req: q, Info: "dial failed (first attempt)"})
+			return nil, errors.New("dial failed")
+		}
 		// as the real setupTargetClient: the verify callback runs inside the handshake
 		if err := verify(tcert); err != nil {
 			lg.add(event{Kind: "setup.ret", Req: q, Info: "handshake aborted by verify callback"})
@@ -197,11 +235,12 @@ func runSequence(r *vh.Runner, c *vh.Case, seq []step, rng *vh.Rand, sample bool
 		}
 		pEnd, tEnd := net.Pipe()
 		targetConns = append(targetConns, pEnd, tEnd)
-		go runTarget(lg, tEnd, seq, getCur)
+		go runTarget(lg, noZeroWrites{tEnd}, seq, getCur)
+		connectedTo = u.String()
 		lg.add(event{Kind: "setup.ret", Req: q, Info: "connected", OK: true})
 		return &tapConn{Conn: pEnd, lg: lg, cur: getCur}, nil
 	}
-	done := bub.Go(func() { authgrants.StartPrincipalInstance(dB, approve, setup) })
+	done := bub.Go(func() { authgrants.StartPrincipalInstance(noZeroWrites{dB}, approve, setup) })
 	host := "target.example"
 	user := "user-" + string(rng.Bytes(rng.Pick(0, 3, 30, 200)))
 	type answer struct {
@@ -209,14 +248,21 @@ func runSequence(r *vh.Runner, c *vh.Case, seq []step, rng *vh.Rand, sample bool
 		reason string
 	}
 	answers := make([][]answer, len(seq))
+	sameOther := rng.Bool()
 	for q, st := range seq {
 		h := host
 		if st.OtherHost {
 			h = fmt.Sprintf("other%d.example", q)
+			if sameOther {
+				h = "other.example" // the same foreign target, asked for again and again
+			}
 		}
 		u := user
 		if rng.Chance(0.1) {
 			u = fmt.Sprintf("other-user-%d", q) // another account on the same host is another target too
+			if sameOther {
+				u = "other-user"
+			}
 		}
 		in := randIntent(rng, q, h, u, delegateCert)
 		intents = append(intents, in)
@@ -319,6 +365,10 @@ func runSequence(r *vh.Runner, c *vh.Case, seq []step, rng *vh.Rand, sample bool
 					c.Violate("C06:forwarded-intent-differs-from-requested:"+d, detail(map[string]any{"request": q}))
 					return
 				}
+				if want := intents[q].TargetURL().String(); connectedTo != "" && want != connectedTo {
+					c.Violate("C06:intent-forwarded-to-a-target-it-does-not-name", detail(map[string]any{"request": q, "connected_to": connectedTo, "intent_names": want}))
+					return
+				}
 				if d := sameIntent(*approved.Int, intents[q]); d != "" {
 					c.Violate("C06:approved-intent-differs-from-requested:"+d, detail(map[string]any{"request": q}))
 					return
@@ -385,6 +435,18 @@ func (t *tapConn) Write(b []byte) (int, error) {
 }
 
 // runTarget serves one target connection: the real StartTargetInstance or a raw scripted peer.
+// noZeroWrites: a zero-length write on a net.Pipe blocks until the other end
+// reads, which a reader that has just been told "length 0" never does; a real
+// tube accepts it at once.
+type noZeroWrites struct{ net.Conn }
+
+func (n noZeroWrites) Write(b []byte) (int, error) {
+	if len(b) == 0 {
+		return 0, nil
+	}
+	return n.Conn.Write(b)
+}
+
 func runTarget(lg *elog, conn net.Conn, seq []step, cur func() int) {
 	q0 := cur()
 	behaviourOf := func() string {
@@ -402,6 +464,10 @@ func runTarget(lg *elog, conn net.Conn, seq []step, cur func() int) {
 			if behaviourOf() == "deny" || behaviourOf() == "raw-deny" {
 				lg.add(event{Kind: "target.decision", Req: cur(), Info: "denied by target policy"})
 				return errors.New("target policy says no")
+			}
+			if b := behaviourOf(); b == "deny-empty-reason" || b == "raw-deny-empty-reason" {
+				lg.add(event{Kind: "target.decision", Req: cur(), Info: "denied by target policy, no reason given"})
+				return errors.New("")
 			}
 			return nil
 		}
@@ -431,6 +497,9 @@ func runTarget(lg *elog, conn net.Conn, seq []step, cur func() int) {
 		case "raw-deny", "deny", "addgrant-fails":
 			lg.add(event{Kind: "target.decision", Req: cur(), Info: "raw deny"})
 			authgrants.WriteIntentDenied(conn, "raw target denies")
+		case "raw-deny-empty-reason", "deny-empty-reason":
+			lg.add(event{Kind: "target.decision", Req: cur(), Info: "raw deny, no reason given"})
+			authgrants.WriteIntentDenied(conn, "")
 		case "raw-close":
 			lg.add(event{Kind: "target.decision", Req: cur(), Info: "raw close"})
 			return
